@@ -7,7 +7,7 @@ import lib
 NAMES_OK = ["a", "b", "k", "x1", "n-1", "é"]
 NAMES_BAD = ["1a", "a b", "", "<", "a'", "x:"]
 ALPHA = ["a", " ", "<", "&", ">", "'", '"', "-", "]", "?", ";", "#", "é", "x", "]]>", "--", "?>", "&amp;", "&#65;"]
-ALLOC = ("ce", "ct", "cc", "cd", "cp", "ca", "cr", "st", "ga", "ch")
+ALLOC = ("ce", "ct", "cc", "cd", "cp", "ca", "cr", "st", "ga", "ch", "gni")
 
 
 def enc2(s):
@@ -288,14 +288,15 @@ class Hist:
             return "sa:%s:%s:%s" % (self.h(self.pick(("elem",))), enc2(r.choice(names) if r.random() > 0.1 else self.name()),
                                     enc2(self.data()))
         if k < 0.75:
-            return "ra:%s:%s" % (self.h(self.pick(("elem",))), enc2(r.choice(["x", "y", "id", "k", "zz"])))
+            # removeAttribute, or the same through the element's NamedNodeMap (NOT_FOUND_ERR when there is none)
+            return "%s:%s:%s" % (r.choice(["ra", "ra", "rni"]), self.h(self.pick(("elem",))), enc2(r.choice(["x", "y", "id", "k", "zz"])))
         if k < 0.79:
-            return "san:%s:%s" % (self.h(self.pick(("elem",))), self.h(self.pick(("attr",))))
+            return "%s:%s:%s" % (r.choice(["san", "san", "sni"]), self.h(self.pick(("elem",))), self.h(self.pick(("attr",))))
         if k < 0.81:
             return "ran:%s:%s" % (self.h(self.pick(("elem",))), self.h(self.pick(("attr",))))
         if k < 0.84:
             self.shadow.append("attr")
-            return "ga:%s:%s" % (self.h(self.pick(("elem",))), enc2(r.choice(["x", "y", "id", "k"])))
+            return "%s:%s:%s" % (r.choice(["ga", "ga", "gni"]), self.h(self.pick(("elem",))), enc2(r.choice(["x", "y", "id", "k"])))
         if k < 0.86:
             # Element.normalize: merges the runs of Text nodes below the element and in its attribute values
             return "nz:%s" % self.h(self.pick(("elem",)))
